@@ -471,8 +471,9 @@ def catch_oracle(case):
         check_meta(ca.flowdir, cb.flowdir, what + " flowdir")
     # clone independence
     cc = ca.clone()
-    cc.flowdir.data[0, 0] = 3
-    if ca.flowdir.data[0, 0] != fd[0, 0]:
+    v00 = ca.flowdir.data[0, 0]
+    cc.flowdir.data[0, 0] = 3 if v00 != 3 else 5
+    if ca.flowdir.data[0, 0] != v00:
         raise Violation("catchment clone shares its flow grid")
     if inlets:
         labels.append("with-inlets")
